@@ -6,6 +6,10 @@ from .enum_graphs import labelled_graphs
 LINK_IDS = list(F.LINKS)
 # links whose judgement needs the residue graph to carry labels
 NEEDS_TAG = {"lab"}
+
+
+def needs_tag(links):
+    return bool(set(links) & NEEDS_TAG) or any(l.startswith("cmp:") and "tag" in l.split(":")[2].split("+") for l in links)
 NEEDS_CIRCLE = {"circ"}
 
 
@@ -31,11 +35,13 @@ def make_spec(variant):
     blocks = {k: F.BLOCKS[k] for k in variant.get("blocks", "ABCDE" if "partial" in variant["links"] else "ABCD")}
     for name, nre in (variant.get("nrexcl") or {}).items():
         blocks[name] = F.block_with_nrexcl(name, nre)
-    return dict(blocks=blocks, links=[F.LINKS[i] for i in variant["links"]], mods=variant.get("mods") or {})
+    return dict(blocks=blocks, links=[F.get_link(i) for i in variant["links"]], mods=variant.get("mods") or {})
 
 
 def names_for(variant, n):
     links = set(variant["links"])
+    if any(l.startswith("cmp:") for l in links):
+        return ("A", "B", "C") if n <= 3 else ("A", "C")
     if "partial" in links:
         return ("A", "C", "E") if n <= 3 else ("A", "E")
     if n <= 2:
@@ -60,7 +66,7 @@ def graphs_for(variant, n, tier, starts=None):
         if links & NEEDS_CIRCLE:
             lt_opts = [None] + list(range(len(edges)))
         tag_opts = [()]
-        if links & NEEDS_TAG:
+        if needs_tag(links):
             tag_opts = [c for r in range(n + 1) for c in itertools.combinations(range(n), r)]
             if n >= 4:
                 names = names[:1] if len(names) > 1 and tier == "quick" else names
